@@ -11,6 +11,9 @@ parameterised by (lean/AITB/Gen/IOPrec.lean).
       POMDP::Model<M>) must send every floating value through `write(os, …)`: anything else is a broken tie.
   sparseTableViaDouble : `read(istream&, SparseTable2D&)` extracts the count of a triplet into a `double`.
   commitLast : in every operator>> the destination object is assigned only after the last failure exit.
+  formattedOnly / neverClears : every reader (and checkRemoveAtSign) touches the stream only through `is >> x`,
+      `is >> std::ws`, `peek()` and `setstate(failbit)`: no unformatted extraction, no repositioning, no `clear()`,
+      no change of flags / locale / exception mask.  The model's "stream = unread tokens, failbit sticky" rests on it.
 
 Any other shape of these sites raises ExtractError (a broken tie)."""
 import re
@@ -111,6 +114,22 @@ def commit_guarded(src, typ, what):
     return len(writes) == 1 and len(guarded) == 1 and not passes, X.lineno(src, m.start())
 
 
+UNFORMATTED = r'\bis\s*\.\s*(get|getline|read|readsome|ignore|unget|putback|seekg|tellg|sync|rdbuf)\s*\(|\bgetline\s*\(\s*is\b'
+CLEARS = r'\bis\s*\.\s*(clear|exceptions|imbue|flags|setf|unsetf|width)\s*\(|\bis\s*>>\s*std\s*::\s*(hex|oct|noskipws|hexfloat)\b'
+
+
+def stream_discipline(body, allow_get=False):
+    """(formatted extraction only, stream state never cleared / reconfigured) for one reader body.  The Lean model
+    reads a stream as the list of its white-space separated unread tokens with a sticky failbit: that abstraction is
+    sound only for readers that use `is >> x`, `is >> std::ws`, `peek` and `setstate(failbit)` and nothing else."""
+    b = body
+    if allow_get:       # checkRemoveAtSign may consume the '@' it has just peeked at with get()/ignore()
+        b = re.sub(r'\bis\s*\.\s*(get|ignore)\s*\(\s*\)', '', b)
+    formatted = not re.search(UNFORMATTED, b)
+    keeps = not re.search(CLEARS, b) and not re.search(r'setstate\s*\(\s*std\s*::\s*ios(_base)?\s*::\s*goodbit', b)
+    return formatted, keeps
+
+
 def gen_ioprec():
     u = X.strip_comments(X.read(UTILS))
     mdp = X.strip_comments(X.read(MDPIO))
@@ -151,6 +170,21 @@ def gen_ioprec():
     for typ in ('Vector', 'Matrix2D', 'SparseMatrix2D', 'Matrix3D', 'SparseMatrix3D', 'Table2D', 'SparseTable2D', 'Table3D', 'SparseTable3D'):
         ok, ln = commit_guarded(u, typ, f'read(is, {typ}&)')
         commits.append((f'read({typ})', UTILS, ln, ok))
+    # stream discipline of every reader (the token-list / sticky-failbit abstraction of the model)
+    disc = []
+    for typ, dest in (('Experience', 'exp'), ('SparseExperience', 'exp'), ('Model', 'm'), ('SparseModel', 'm'), ('Policy', 'p')):
+        body, _ = func(mdp, r'std\s*::\s*istream\s*&\s*operator>>\s*\(\s*std\s*::\s*istream\s*&\s*is\s*,\s*' + typ + r'\s*&\s*' + dest + r'\s*\)\s*\{', f'operator>>(is, MDP::{typ})')
+        disc.append((f'MDP::{typ}',) + stream_discipline(body))
+    body, _ = func(pcpp, r'std\s*::\s*istream\s*&\s*operator>>\s*\(\s*std\s*::\s*istream\s*&\s*is\s*,\s*Policy\s*&\s*p\s*\)\s*\{', 'operator>>(is, POMDP::Policy)')
+    disc.append(('POMDP::Policy',) + stream_discipline(body))
+    body, _ = func(pcpp, r'bool\s+checkRemoveAtSign\s*\(\s*std\s*::\s*istream\s*&\s*is\s*\)\s*\{', 'checkRemoveAtSign')
+    disc.append(('checkRemoveAtSign',) + stream_discipline(body, allow_get=True))
+    for typ in ('Model', 'SparseModel'):
+        body, _ = func(phpp, r'std\s*::\s*istream\s*&\s*operator>>\s*\(\s*std\s*::\s*istream\s*&\s*is\s*,\s*' + typ + r'\s*<\s*M\s*>\s*&\s*m\s*\)\s*\{', f'operator>>(is, POMDP::{typ}<M>)')
+        disc.append((f'POMDP::{typ}<M>',) + stream_discipline(body))
+    for typ in ('Vector', 'Matrix2D', 'SparseMatrix2D', 'Matrix3D', 'SparseMatrix3D', 'Table2D', 'SparseTable2D', 'Table3D', 'SparseTable3D'):
+        body, _ = func(u, r'std\s*::\s*istream\s*&\s*read\s*\(\s*std\s*::\s*istream\s*&\s*is\s*,\s*' + typ + r'\s*&\s*\w+\s*\)\s*\{', f'read(is, {typ}&)')
+        disc.append((f'read({typ})',) + stream_discipline(body))
     b = lambda x: 'true' if x else 'false'
     out = ['/- GENERATED by tools/extract_c17.py from the library source — do not edit. -/', 'namespace AITB.Gen.IOPrec', '',
            f'/-- {UTILS}:{l1} — precision in force in write(os, double) -/', f'def scalar : Nat := {scalar}',
@@ -161,6 +195,10 @@ def gen_ioprec():
            f'/-- {UTILS}:{l6} — read(is, SparseTable2D&) extracts a triplet\'s count into a `double` -/', f'def sparseTableViaDouble : Bool := {b(via_double)}',
            '', '/-- (reader, destination assigned only after the last failure exit) -/',
            'def commitLast : List (String × Bool) := [' + ', '.join(f'("{n}", {b(ok)})' for n, _, _, ok in commits) + ']',
+           '', '/-- (reader, uses formatted extraction / peek / setstate(failbit) only: the stream is its list of unread tokens) -/',
+           'def formattedOnly : List (String × Bool) := [' + ', '.join(f'("{n}", {b(f)})' for n, f, _ in disc) + ']',
+           '', '/-- (reader, never clears or reconfigures the stream: failbit is sticky across consecutive loads) -/',
+           'def neverClears : List (String × Bool) := [' + ', '.join(f'("{n}", {b(k)})' for n, _, k in disc) + ']',
            '', 'end AITB.Gen.IOPrec', '']
     X.write_if_changed('IOPrec', '\n'.join(out))
 
